@@ -56,7 +56,7 @@ def run(ctx):
     s3_adjacency(ctx)
     s4_gradient(ctx)
     m1_mass(ctx)
-    kinds_rule(ctx, "C08-K1", [LAP, GRAD, MASS, ADJ, CONN], 90)
+    kinds_rule(ctx, "C08-K1", [LAP, GRAD, MASS, ADJ, CONN], 50)
     k1_matrix_axes(ctx)
     o1_opposite(ctx)
     n1_allocation(ctx)
@@ -240,9 +240,11 @@ def s1_s2_stencils(ctx):
             a, b = a + x, b + y
         if a == 0:
             ctx.fail("C08-S1", site, f"{name}: no real assembly path found", "")
+        if b == 0 and "connection" in au.params(fn):
+            ctx.fail("C08-S2", site, f"{name}: assembly path of the connection branch (entries of the form m * rect(1, phase)) not found",
+                     "the function takes a connection but its complex stencil can no longer be extracted")
         nr, nc = nr + a, nc + b
-    ctx.require_count("C08-S1 real stencil paths", nr, 5)
-    ctx.require_count("C08-S2 connection stencil paths", nc, 2)
+    ctx.require_count("C08-S1 real stencil paths", nr, 2)
 
 
 # ----------------------------------------------------------------------- C08-S2 (laplacian_triangles)
@@ -291,7 +293,8 @@ def s2_triangles(ctx):
         ctx.check(ok, "C08-S2", ctx.site(LAP, fn, r), f"laplacian_triangles: `{au.src(r.value)}` is not N^H @ [cotan_edge_diagonal] @ N",
                   "only the form (conjugate transpose of N) * (real diagonal) * N is Hermitian positive semi-definite by construction",
                   note="N^H [D] N")
-    ctx.require_count("C08-S2 laplacian_triangles products", n, 2)
+    if n < 2:
+        ctx.fail("C08-S2", site, f"laplacian_triangles: {n} returned product(s) found instead of the weighted and unweighted N^H N forms", "")
     fd = ctx.repo.func(LAP, "cotan_edge_diagonal")
     rd = [s for s in au.stmts(fd.body) if isinstance(s, ast.Return) and s.value is not None]
     ctx.check(len(rd) == 1 and isinstance(rd[0].value, ast.Call) and au.call_tail(rd[0].value) == "diags", "C08-S2", ctx.site(LAP, fd),
@@ -318,7 +321,8 @@ def s2_triangles(ctx):
                       f"laplacian_triangles: the dual-edge row emits {emits} - expected one -1 and one unit-modulus +1 entry in two different columns",
                       "each interior edge contributes the difference of its two faces; constants must be in the kernel when the connection is trivial",
                       note="Nabla row: -1 / +1 (or unit phase)")
-    ctx.require_count("C08-S2 Nabla rows", m, 2)
+    if m < 2:
+        ctx.fail("C08-S2", site, f"laplacian_triangles: {m} assembly path(s) of the dual gradient N found instead of the real / connection pair", "")
 
 
 # ----------------------------------------------------------------------- C08-S3
@@ -723,7 +727,7 @@ def k1_matrix_axes(ctx):
                                   f"{name}: {'row' if axis == 0 else 'column'} index `{au.src(v)}` is an id of {got} but that axis has one line per element of {want[axis]}",
                                   "entries land on lines of the wrong element kind (or beyond the shape)",
                                   note=f"{name}: {'rows' if axis == 0 else 'cols'} are {want[axis]} ids")
-    ctx.require_count("C08-K1 typed row/col stores", n, 8)
+    ctx.require_count("C08-K1 typed row/col stores", n, 2)
 
 
 # ----------------------------------------------------------------------- C08-O1
@@ -807,6 +811,9 @@ def o1_opposite(ctx):
     n = 0
     for modname, name in ((LAP, "cotan_edge_diagonal"), ("attributes.attr_edges", "cotan_weights")):
         fn = ctx.repo.func(modname, name)
+        if not list(opposite_index_sites(fn)):
+            ctx.fail("C08-O1", ctx.site(modname, fn), f"{name}: opposite local index `3 - iu - iv` not found",
+                     "the corner / vertex opposite to an edge in a triangle is no longer addressed through the local indices of the edge")
         for node, neg, others in opposite_index_sites(fn):
             n += 1
             st = au.enclosing_stmt(node)
@@ -836,7 +843,7 @@ def o1_opposite(ctx):
                       f"for the face it addresses{detail}",
                       "in a triangle the third vertex has local index 3 - iu - iv only when iu, iv are the positions of the edge in that same face",
                       note=f"{name}: 3 - iu - iv from one direct_face call")
-    ctx.require_count("C08-O1 opposite index sites", n, 4)
+    ctx.require_count("C08-O1 opposite index sites", n, 1)
 
 
 # ----------------------------------------------------------------------- C08-N1
@@ -929,7 +936,7 @@ def n1_allocation(ctx):
                   f"{name}: {size} coefficients are allocated but the assembly emits {total}",
                   "fewer slots than entries raises IndexError on the last faces; the count documents the stencil (entries per element)",
                   note=f"{name}: allocated = emitted = {size}")
-    ctx.require_count("C08-N1 allocation sites", n, 10)
+    ctx.require_count("C08-N1 allocation sites", n, 3)
 
 
 # ----------------------------------------------------------------------- C08-T1
@@ -972,7 +979,7 @@ def t1_transport(ctx):
                       f"{cls}: transport ({a}, {c}) + transport ({c}, {a}) = {p1 + p2}, not zero",
                       "parallel transport between two elements must be antisymmetric: the Hermitian pairing of the connection Laplacians relies on it",
                       note=f"{cls}: T[({a},{c})] = -T[({c},{a})]")
-    ctx.require_count("C08-T1 transport pairs", n, 4)
+    ctx.require_count("C08-T1 transport pairs", n, 1)
 
 
 # ----------------------------------------------------------------------- C08-D1
@@ -1073,4 +1080,7 @@ def b1_local_bases(ctx):
         n += 1
         ctx.check(ok, "C08-B1", ctx.site(CONN, fn), f"{cls}: baseY is not cross(normal, baseX) of the same element",
                   "the tangent basis must be right handed with respect to the normal: cross(X, Y) = N", note=f"{cls}: Y = N x X")
-    ctx.require_count("C08-B1 basis sites", n, 8)
+    if len(at) < 2:
+        fn = ctx.repo.func(CONN, "SurfaceConnectionFaces._initialize")
+        ctx.fail("C08-B1", ctx.site(CONN, fn), "SurfaceConnectionFaces: the two edge angles atan2(E . Y, E . X) of an interior edge not found", "")
+    ctx.require_count("C08-B1 basis sites", n, 4)
